@@ -109,4 +109,6 @@ TRUSTED_COMMON = [
 ]
 
 LEVELS = {"C11": "other"}
-EXPLANATIONS = {}
+EXPLANATIONS = {
+    "C11": "proof obligations on the pickle hooks (counted in obligations/discharged) + assumed pickle/marshal protocol + bounded native round-trip stand-in (listed under bounded_functions, not counted)",
+}
